@@ -229,6 +229,7 @@ func runRL(t *testing.T, c rlCase) (out outcome, err error) {
 					}
 					for i := 0; i < o.N; i++ {
 						addTimes = append(addTimes, now)
+						m.add(now) // racy mode: only used to guess where the window ends (for at-expiry bursts)
 					}
 				}
 				var bw sync.WaitGroup
@@ -321,6 +322,14 @@ func runRL(t *testing.T, c rlCase) (out outcome, err error) {
 			if len(sig) > len(addTimes) {
 				errs.Failf("after %s: %d signals for %d Adds", step, len(sig), len(addTimes))
 				return
+			}
+			// no Add lost: once MaxDelay has passed since the most recent Add, a signal at or after it must exist
+			if !c.Slow && !closeIssued && ctx.Err() == nil && len(addTimes) > 0 {
+				last := addTimes[len(addTimes)-1]
+				if now := time.Now(); now.Sub(last) > max && (len(sig) == 0 || sig[len(sig)-1].Before(last)) {
+					errs.Failf("after %s: the Add at +%v was never followed by a signal although more than MaxDelay (%v) has passed without further Adds (signals at %v)", step, last.Sub(addTimes[0]), max, rel(sig, addTimes))
+					return
+				}
 			}
 			if c.Exact && !closeIssued && ctx.Err() == nil {
 				m.expire(time.Now())
@@ -492,6 +501,27 @@ func TestCoalescingRacy(t *testing.T) {
 			rt.Fatalf("C09 coalescing rate limiter violated: %v\ncase: %s", err, c)
 		}
 		record(sec, c, out)
+	})
+}
+
+// TestCoalescingExpiryRace: an Add issued at the very instant the window timer fires, after another Add is already
+// pending in that window - the expiry and the token race in the run loop. Whatever the order, every Add must be
+// followed by a signal. Deterministic menu, many repetitions (the order is the Go scheduler's choice).
+func TestCoalescingExpiryRace(t *testing.T) {
+	sec := vk.Sec("CoalescingExpiryRace")
+	reps := vk.Pick(400, 8000) / vk.Shards()
+	for r := 0; r < reps; r++ {
+		for _, n := range []int{1, 2} {
+			c := rlCase{InitMS: 10, MaxMul: []int{1, 4}[r%2], Cap: 0, Ops: []op{{Kind: "burst", N: 1, G: 1}, {Kind: "adv", Adv: "half"}, {Kind: "burst", N: 1, G: 1},
+				{Kind: "burst", N: n, G: n, Also: "at-expiry"}, {Kind: "adv", Adv: "quiet"}, {Kind: "adv", Adv: "quiet"}}, EndWith: "close"}
+			if _, err := runRL(t, c); err != nil {
+				t.Fatalf("C09 coalescing rate limiter violated: %v\ncase: %s", err, c)
+			}
+			sec.Case(true, vk.FP(c.String()), "expiry-race")
+		}
+	}
+	sec.Sample(func() any {
+		return "burst(1) adv(half) burst(1) burst(n, at the instant the window expires) adv(quiet) adv(quiet)"
 	})
 }
 
